@@ -186,3 +186,42 @@ pub fn vectored_slice_mut_three_members() {
         p += 1;
     }
 }
+
+/// VectoredBufIter, the way the vectored read helpers use it: THREE members (capacities 2, 1, 2) filled densely one after
+/// the other through `owned_iter()` / `next()`; afterwards every member holds exactly what was recorded through it
+/// (seeded change C10-r6-1: a running total that forgets earlier members only shows from the third member on)
+#[kani::proof]
+#[kani::unwind(7)]
+pub fn iter_dense_fill_three_members() {
+    let bufs = [mk(2, 0, 10), mk(1, 0, 20), mk(2, 0, 30)];
+    let mut it = match bufs.owned_iter() { Ok(it) => it, Err(_) => { assert!(false); return; } };
+    { let d = it.as_uninit(); d[0].write(0xA0); d[1].write(0xA1); }
+    unsafe { SetLen::set_len(&mut it, 2) };
+    let mut it = match it.next() { Ok(it) => it, Err(_) => { assert!(false); return; } };
+    { let d = it.as_uninit(); d[0].write(0xB0); }
+    unsafe { SetLen::set_len(&mut it, 1) };
+    let mut it = match it.next() { Ok(it) => it, Err(_) => { assert!(false); return; } };
+    let k = any_le(2);
+    { let d = it.as_uninit(); let mut i = 0; while i < k { d[i].write(0xC0 + i as u8); i += 1; } }
+    unsafe { SetLen::set_len(&mut it, k) };
+    let b = it.into_inner();
+    assert!(b[0].len() == 2 && b[0][0] == 0xA0 && b[0][1] == 0xA1, "first member lost what was recorded through it");
+    assert!(b[1].len() == 1 && b[1][0] == 0xB0, "second member lost what was recorded through it");
+    assert!(b[2].len() == k, "third member does not hold what was recorded through it");
+    if k > 0 { assert!(b[2][0] == 0xC0); }
+}
+
+/// recording a length twice on the SAME member (a short fill, then more) must not leak into the next member
+/// (seeded change C10-r6-4: the running total kept as an increment inside set_len)
+#[kani::proof]
+#[kani::unwind(5)]
+pub fn iter_record_twice_same_member() {
+    let bufs = [mk(C0, 0, 10), mk(C1, 0, 20)];
+    let mut it = match bufs.owned_iter() { Ok(it) => it, Err(_) => { assert!(false); return; } };
+    { let d = it.as_uninit(); d[0].write(1); d[1].write(2); }
+    unsafe { SetLen::set_len(&mut it, 1) };
+    unsafe { SetLen::set_len(&mut it, 2) };
+    let b = it.into_inner();
+    assert!(b[0].len() == 2, "first member does not hold the recorded length");
+    assert!(b[1].len() == 0, "a second recording on the first member leaked into the second member");
+}
